@@ -9,7 +9,7 @@ META = {
     'rule': 'seeded random PDAs (1-3 states, <=6 transitions, epsilon moves, replace and no-op transitions, stack-growing and '
             'non-growing epsilon cycles) x all words <=3 x closure limits {0,1,2,5,40}; verdict compared with the exact '
             'summary-saturation oracle (soundness always; equality when no closure is truncated) and with the Lean model; '
-            'non-trivial = PDA with an epsilon move and a stack operation, word non-empty; distinct by (PDA, word, limit); also PDAs with epsilon loops that push (infinite closures) or pop (drain loops), automata produced by pda_to_accept_on_empty_stack, ambiguous multi-character stack symbols, in-place-edit history',
+            'non-trivial = PDA with an epsilon move and a stack operation, word non-empty; distinct by (PDA, word, limit); also PDAs with epsilon loops that push (infinite closures) or pop (drain loops), automata produced by pda_to_accept_on_empty_stack, ambiguous multi-character stack symbols, in-place-edit history; epsilon chains with idle self-loops and back edges whose closure has exactly as many configurations as the limit allows (limits L-1, L, L+1)',
     'assumptions': ['PDA.valid (constructor); delta is a dict (unique keys)'],
     'trusted_base': ['Spec: Gamba/Spec/PDA.lean (Move, Run, Accepts, EpsReach)'],
 }
@@ -24,11 +24,45 @@ def chain_pda(L):
     return {'Q': Q, 'Sigma': ['a'], 'Gamma': ['x'], 'delta': delta, 'q0': 'c0', 'F': ['f'], 'eps': '_', 'dd': True}
 
 
+def cyclic_chain_pda(rng):
+    """an epsilon chain of L states with stack-neutral epsilon cycles on the way (idle self-loops, back edges, push-then-pop detours are
+    NOT used: the closure stays finite), accepting at its end either directly or after reading 'a'.  The closure of the initial
+    configuration has exactly L configurations, so a limit of L (or L + 1) is enough -- but only if no iteration is wasted."""
+    L = rng.randint(2, 9)
+    eps = rng.choice(['_', 'ε'])
+    Q = ['k%d' % i for i in range(L)]
+    rows = {}
+    for i in range(L - 1):
+        rows.setdefault((Q[i], eps, eps), []).append([Q[i + 1], eps])
+    for i in range(L):
+        r = rng.random()
+        if r < 0.5:
+            rows.setdefault((Q[i], eps, eps), []).append([Q[i], eps])                       # idle self-loop
+        elif r < 0.75 and i > 0:
+            rows.setdefault((Q[i], eps, eps), []).append([Q[rng.randrange(i)], eps])        # back edge
+    delta = [[p, a, u, T] for (p, a, u), T in rows.items()]
+    if rng.random() < 0.5:
+        F = [Q[-1]]
+        words = ['', 'a']
+    else:
+        Q.append('fin')
+        delta.append([Q[-2], 'a', eps, [['fin', eps]]])
+        F = ['fin']
+        words = ['a', '', 'aa']
+    rng.shuffle(delta)
+    P = {'Q': Q, 'Sigma': ['a'], 'Gamma': ['x'], 'delta': delta, 'q0': Q[0], 'F': F, 'eps': eps, 'dd': True}
+    return P, words, sorted({L, L + 1, max(L - 1, 0)})
+
+
 def cases(ctx):
     thorough = ctx.tier == 'thorough'
     rng = ctx.rng
     # the limit must be honoured whatever value it is set to, also above the default of 1000
     yield {'P': chain_pda(1100), 'words': ['a'], 'limits': [1300, 1000]}
+    for i in range(60 if not thorough else 600):
+        P, ws, lims = cyclic_chain_pda(rng)
+        if not thorough or ctx.mine(i):
+            yield {'P': P, 'words': ws, 'limits': lims}
     for i in range(700 if not thorough else 6000):
         P = gen.ambiguous_stack_pda(rng) if i % 20 == 3 else gen.push_loop_pda(rng) if i % 20 == 11 else \
             gen.pop_loop_pda(rng) if i % 20 == 15 else gen.random_pda(rng)
